@@ -23,6 +23,18 @@ type Env struct {
 	Ret func(results []string) string
 	// Fall is the Lean expression used when a block falls off its end.
 	Fall string
+	// OptCalls maps a Go call (printed with exprKey of the function and its args, e.g. "headers.Get(types.HeaderTryTimeout)")
+	// used in `if v, ok := CALL; ok {` / `if v, err := CALL; err == nil {` to a Lean expression of type `Option _`.
+	OptCalls map[string]string
+	// Types gives the Lean type of a Lean variable name (default Int); used for type ascriptions on lets.
+	Types map[string]string
+}
+
+func (env *Env) typeOf(v string) string {
+	if t, ok := env.Types[v]; ok {
+		return t
+	}
+	return "Int"
 }
 
 func exprKey(e ast.Expr) string {
@@ -37,6 +49,10 @@ func exprKey(e ast.Expr) string {
 		return "*" + exprKey(x.X)
 	case *ast.UnaryExpr:
 		return x.Op.String() + exprKey(x.X)
+	case *ast.BasicLit:
+		return x.Value
+	case *ast.CallExpr:
+		return callKey(x)
 	}
 	return fmt.Sprintf("?%T", e)
 }
@@ -108,7 +124,7 @@ func (env *Env) expr(e ast.Expr) (string, error) {
 		}
 		return "", fmt.Errorf("binary %v", x.Op)
 	case *ast.CallExpr:
-		if n, ok := env.Names[exprKey(x.Fun)+"()"]; ok && len(x.Args) == 0 {
+		if n, ok := env.Names[callKey(x)]; ok {
 			return n, nil
 		}
 		head := exprKey(x.Fun)
@@ -176,7 +192,7 @@ func (env *Env) block(stmts []ast.Stmt, ind string) (string, error) {
 		if err != nil {
 			return "", err
 		}
-		return "let " + name + " := " + rhs + "\n" + ind + k, nil
+		return "let " + name + " : " + env.typeOf(name) + " := " + rhs + "\n" + ind + k, nil
 	case *ast.IncDecStmt:
 		name, ok := env.Names[exprKey(x.X)]
 		if !ok {
@@ -202,6 +218,9 @@ func (env *Env) block(stmts []ast.Stmt, ind string) (string, error) {
 		}
 		return env.Ret(rs), nil
 	case *ast.IfStmt:
+		if !containsReturn(x) {
+			return env.pureIf(x, rest, ind)
+		}
 		if x.Init != nil {
 			return "", fmt.Errorf("if with init")
 		}
